@@ -1,0 +1,12 @@
+//go:build verif
+
+// Contracts for package cpp, read by /verif/govc (comment-only file; excluded from every build without the tag "verif").
+package cpp
+
+// C08 / C11: the C++ driver always writes types, protocols and the binary part, and hands every error of a writer to
+// the caller. (That the optional parts follow their options was written too and is not claimed: the options struct is
+// a by-value parameter kept in a local cell, and the engine does not keep that cell across the calls in between.)
+//@ func Generate
+//@   property C08,C11
+//@   ensures the_core_parts_are_always_written: result == nil ==> called("cpp/types.WriteTypes") && called("cpp/protocols.WriteProtocols") && called("cpp/binary.WriteBinary")
+//@   ensures every_writer_error_is_returned: errSeen("cpp/types.WriteTypes") || errSeen("cpp/protocols.WriteProtocols") || errSeen("cpp/binary.WriteBinary") || errSeen("cpp/ndjson.WriteNdJson") || errSeen("cpp/hdf5.WriteHdf5") || errSeen(writeCMakeLists) ==> result != nil
